@@ -2,6 +2,7 @@
      <id> D <codec> <hex>            decode          -> <id> ok <hex> | <id> err | <id> any
      <id> E <codec> <hex> [<tags>]   encode          -> <id> enc <hex>
        codec: ahx | a85 | rl | lzw0 | lzw1 | png:<colors>:<bpc>:<columns> | tiff:<colors>:<bpc>:<columns>
+              | g3:<cols>:<eol>:<align>:<blackis1>:<ignore_eob>:<maxrows>   (CCITTFax, K = 0)
      <id> PF <v> <p> <c> <b> <n>      FilterFlate{..}: validate, toDict, parse(toDict)
      <id> PL <v> <p> <c> <b> <n> <o>  FilterLZW{..}
      <id> PC <k> <eol> <al> <cols> <rows> <ieob> <bi1> <dmg>   FilterCCITTFax{..}
@@ -90,6 +91,14 @@ let geometry spec =
     (c, b, n, bpp, rowlen)
   | _ -> failwith "bad geometry"
 
+(* g3:<cols>:<eol>:<align>:<blackis1>:<ignore_eob>:<maxrows> *)
+let g3_params spec =
+  match Stdlib.String.split_on_char ':' spec with
+  | [_; cols; eol; al; bi1; ieob; mr] ->
+    { CCITT.g_cols = n_of_int (int_of_string cols); g_eol = (eol = "1"); g_align = (al = "1");
+      g_blackis1 = (bi1 = "1"); g_ignore_eob = (ieob = "1"); g_maxrows = nat_of_int (int_of_string mr) }
+  | _ -> failwith "bad g3 parameters"
+
 let starts_with p s =
   Stdlib.String.length s >= Stdlib.String.length p && Stdlib.String.sub s 0 (Stdlib.String.length p) = p
 
@@ -110,6 +119,7 @@ let decode id codec data =
   | s when starts_with "tiff:" s ->
     let (c, b, n, _, rowlen) = geometry s in
     show_res id (Predict.tiff_dec (nat_of_int c) (n_of_int b) (nat_of_int n) (nat_of_int rowlen) data)
+  | s when starts_with "g3:" s -> show_res id (CCITT.g3_dec (g3_params s) data)
   | _ -> Printf.printf "%s badcodec\n" id
 
 let encode id codec data tags =
@@ -126,6 +136,7 @@ let encode id codec data tags =
     | s when starts_with "tiff:" s ->
       let (c, b, n, _, rowlen) = geometry s in
       Predict.tiff_enc (nat_of_int c) (n_of_int b) (nat_of_int n) (nat_of_int rowlen) data
+    | s when starts_with "g3:" s -> CCITT.g3_enc (g3_params s) data
     | _ -> failwith "bad codec"
   in
   Printf.printf "%s enc %s\n" id (hex_of_bytes out)
